@@ -391,6 +391,12 @@ func streamEngineLife(t *testing.T, o *Out) {
 		if err := env.prepare(c, o); err != nil {
 			t.Fatalf("prepare: %v", err)
 		}
+		if env.hung {
+			id++
+			o.Emit("engine", fmt.Sprintf("plain%d", id), c.Payload(), "kind=plain\tlres=hang\treturned=0\tleak=0\tlcalls=0", true)
+			o.Count("lres:hang")
+			break
+		}
 		bres, base := env.runCheck(c, true)
 		if strings.HasPrefix(bres, "hang") {
 			// the undisturbed check did not return within the watchdog time
